@@ -137,7 +137,7 @@ def main(tier, only=None):
         # every configuration gets an equal share of the remaining time
         ck.deadline = min(t_end, time.time() + max(20.0, (t_end - time.time()) / max(1, nleft))); nleft -= 1
         bs = CONFIGS[name.replace('_full', '')][1]
-        depth = 3 if (not quick or name in ('extent', 'blockmap')) else 2
+        depth = 3 if (not quick or name in ('extent', 'blockmap', 'bigalloc')) else 2
         seen = {}; level = ['']
         trans = 0; dmax = 0
         for d in range(1, depth + 1):
